@@ -6,10 +6,12 @@ import (
 	"encoding/json"
 	"fmt"
 	"go/ast"
+	"go/types"
 	"os"
 	"regexp"
 	"runtime"
 	"sort"
+	"strings"
 	"sync"
 
 	"honnef.co/go/tools/go/ir"
@@ -46,12 +48,73 @@ func normalise(s string) string {
 	})
 }
 
+// identity names a function across builds. Instances whose type arguments are
+// type parameters of *other* generic functions print alike (f[E] for every
+// caller's E), so the declaration positions of those parameters are part of
+// the identity.
 func identity(f *ir.Function) string {
 	s := f.String()
 	if f.Synthetic != "" {
 		s += " {" + f.Synthetic + "}"
 	}
+	for _, ta := range f.TypeArgs() {
+		s += typeParamPositions(ta)
+	}
 	return s
+}
+
+func typeParamPositions(t types.Type) string {
+	out := ""
+	seen := map[types.Type]bool{}
+	var walk func(t types.Type)
+	walk = func(t types.Type) {
+		if t == nil || seen[t] {
+			return
+		}
+		seen[t] = true
+		switch t := t.(type) {
+		case *types.TypeParam:
+			out += fmt.Sprintf("@%d", t.Obj().Pos())
+		case *types.Alias:
+			walk(types.Unalias(t))
+		case *types.Named:
+			for i := 0; i < t.TypeArgs().Len(); i++ {
+				walk(t.TypeArgs().At(i))
+			}
+		case *types.Pointer:
+			walk(t.Elem())
+		case *types.Slice:
+			walk(t.Elem())
+		case *types.Array:
+			walk(t.Elem())
+		case *types.Chan:
+			walk(t.Elem())
+		case *types.Map:
+			walk(t.Key())
+			walk(t.Elem())
+		case *types.Signature:
+			walk(t.Params())
+			walk(t.Results())
+		case *types.Tuple:
+			for i := 0; i < t.Len(); i++ {
+				walk(t.At(i).Type())
+			}
+		case *types.Struct:
+			for i := 0; i < t.NumFields(); i++ {
+				walk(t.Field(i).Type())
+			}
+		}
+	}
+	walk(t)
+	return out
+}
+
+// perUse reports functions that the builder creates once per use by design
+// (bound-method closures and method-expression thunks are private to the
+// function that mentions them); the exactly-once clause is about the functions
+// handed out by the program's memo tables.
+func perUse(f *ir.Function) bool {
+	return strings.HasPrefix(f.Synthetic, "bound method wrapper") || strings.HasPrefix(f.Synthetic, "thunk")
 }
 
 func dump(prog *ir.Program) (funcs map[string]string, dups, unbuilt []string, shared, instances int) {
@@ -60,7 +123,7 @@ func dump(prog *ir.Program) (funcs map[string]string, dups, unbuilt []string, sh
 	all := irutil.AllFunctions(prog)
 	for f := range all {
 		id := identity(f)
-		if prev, ok := seen[id]; ok && prev != f {
+		if prev, ok := seen[id]; ok && prev != f && !perUse(f) {
 			dups = append(dups, id)
 		}
 		seen[id] = f
